@@ -263,7 +263,9 @@ def i_LUI(ins, fmap):
 def i_AUIPC(ins, fmap):
     dst, src1 = ins.operands
     if dst is not zero:
-        fmap[dst] = fmap(pc + src1)
+        # (pc has already been advanced by the npc decorator:
+        # the offset is relative to the address of this instruction)
+        fmap[dst] = fmap(pc + src1 - ins.length)
 
 
 def i_JAL(ins, fmap):
